@@ -56,7 +56,17 @@ impl ZodBindingsGenerator {
 
         let variants: Vec<String> = field_contexts
             .iter()
-            .map(|field| format!("\"{}\"", field.serialized_name))
+            .map(|field| {
+                // the literal must survive quotes and backslashes in a rename
+                let escaped = field
+                    .serialized_name
+                    .replace('\\', "\\\\")
+                    .replace('"', "\\\"")
+                    .replace('\n', "\\n")
+                    .replace('\r', "\\r")
+                    .replace('\t', "\\t");
+                format!("\"{}\"", escaped)
+            })
             .collect();
 
         let enum_values = variants.join(", ");
